@@ -111,19 +111,31 @@ def r03c(ctx, P, commit):
     # rollback stores = stores reachable only after the persist site failed
     ctx.floor(rid, len(cleanups), 1, "cleanup_segments sites in commit")
     ctx.floor(rid + ".rollback-store", len(stores), 1, "rollback Manifest::store sites in commit")
+    # positive form: from the failure arm of the persist step, the cleanup is reachable only through the SUCCESS arm of a
+    # rollback Manifest::store (boolean flags are followed); skipping the rollback store must also skip the cleanup
+    persist_err = []
+    for ps in persist:
+        persist_err += outcome_arms(commit, ps)["err"]
+    ok_arms = []
+    err_arms = []
+    for st in stores:
+        arms = outcome_arms(commit, st)
+        ok_arms += arms["ok"]
+        err_arms += arms["err"]
     for c in cleanups:
-        for st in stores:
-            arms = outcome_arms(commit, st)
-            reach_from_err = set()
-            for eb in arms["err"]:
-                reach_from_err |= commit.reachable_flag_sensitive(eb)
-            ok = bool(arms["err"]) and c.b not in reach_from_err
-            unknown = not arms["err"]
-            ctx.ob(rid, "%s:%s:cleanup-vs-rollback-store" % (rid, commit.short), ok,
-                   "cleanup at %s runs only when the rollback store at %s did not fail" % (c.loc(), st.loc()) if ok else
-                   ("cannot identify the failure arm of the rollback store at %s" % st.loc() if unknown else
-                    "cleanup at %s is reachable when the rollback Manifest::store at %s failed: new segment files are deleted "
-                    "while the on-disk manifest may still reference them" % (c.loc(), st.loc())), c.loc())
+        if not persist_err or not ok_arms:
+            ctx.ob(rid, "%s:%s:cleanup-vs-rollback-store" % (rid, commit.short), False,
+                   "cannot identify the failure arm of the persist step / the success arm of the rollback store", c.loc())
+            continue
+        bypass = any(c.b in commit.reachable_flag_sensitive(pe, avoid=set(ok_arms)) for pe in persist_err)
+        from_err = any(c.b in commit.reachable_flag_sensitive(eb) for eb in err_arms)
+        ok = not bypass and not from_err
+        ctx.ob(rid, "%s:%s:cleanup-vs-rollback-store" % (rid, commit.short), ok,
+               "cleanup at %s runs only after a rollback Manifest::store succeeded" % c.loc() if ok else
+               ("cleanup at %s is reachable when the rollback Manifest::store failed: new segment files are deleted while the on-disk "
+                "manifest may still reference them" % c.loc() if from_err else
+                "cleanup at %s is reachable from the failed persist step without a successful rollback Manifest::store: if the first "
+                "store failed after its effect, the on-disk manifest names the new segment whose files are then deleted" % c.loc()), c.loc())
 
 
 def r03e(ctx, P):
